@@ -13,16 +13,16 @@ import (
 
 // ChildResult is what a child process reports back to the driver.
 type ChildResult struct {
-	Prop       string              `json:"prop"`
-	Race       bool                `json:"race"`
-	Hooks      bool                `json:"hooks"`
-	Evals      int64               `json:"evals"`
-	Cases      int64               `json:"cases"`
-	Shapes     []uint64            `json:"shapes"`
-	Counters   map[string]int64    `json:"counters"`
-	Samples    []sample            `json:"samples"`
-	Violations map[string]*violAgg `json:"violations"`
-	Harness    []string            `json:"harness"`
+	Prop       string                  `json:"prop"`
+	Race       bool                    `json:"race"`
+	Hooks      bool                    `json:"hooks"`
+	Evals      int64                   `json:"evals"`
+	Cases      int64                   `json:"cases"`
+	Shapes     []uint64                `json:"shapes"`
+	Counters   map[string]int64        `json:"counters"`
+	Samples    []sample                `json:"samples"`
+	Violations map[string]*violAgg     `json:"violations"`
+	Harness    []string                `json:"harness"`
 	Strata     map[string]*StratumStat `json:"strata"`
 }
 
